@@ -61,7 +61,8 @@ func (c context) same(d context) bool {
 		c.attr.value == d.attr.value &&
 		c.attr.ambiguousValue == d.attr.ambiguousValue &&
 		c.attr.dynamic == d.attr.dynamic &&
-		c.attr.dynamicStart == d.attr.dynamicStart
+		c.attr.dynamicStart == d.attr.dynamicStart &&
+		c.attr.continued == d.attr.continued
 }
 
 func sameNames(a, b []string) bool {
@@ -203,6 +204,10 @@ type attr struct {
 	// dynamicStart indicates whether an action occurred at the very start of the attribute
 	// value, i.e. whether the attribute value starts with text that is not known statically.
 	dynamicStart bool
+	// continued indicates that text of a later template node continued the attribute name,
+	// e.g. `<iframe src{{/* c */}}doc="x">`, so that name is only a prefix of the name of
+	// the attribute.
+	continued bool
 	// names contains all possible names the attribute could assume because of context joining.
 	// For example, after joining the contexts in the "if" and "else" branches of
 	//     <a {{if .C}}title{{else}}name{{end}}="foo">
